@@ -322,6 +322,8 @@ def run_property(pid: str, tier: str, only=None, verbose=False) -> int:
             for pi in range(len(plist)):
                 if flt and flt not in repr(plist[pi]):
                     continue
+                if os.environ.get("VERIF_INDEX") and int(os.environ["VERIF_INDEX"]) != pi:
+                    continue
                 queue.append((h.name, pi, []))
                 stats[(h.name, pi)] = Counter()
         # serialise prefixes as tuples
